@@ -7,6 +7,7 @@ import (
 
 	"github.com/Ptt-official-app/go-pttbbs/cache"
 	"github.com/Ptt-official-app/go-pttbbs/ptttype"
+	"verifharness/internal/hx"
 )
 
 var userIDOffset = int(unsafe.Offsetof(ptttype.USEREC_RAW.UserID))
@@ -552,6 +553,65 @@ func sweepCases(p *pool) {
 	}
 }
 
+// longIdCases: the lookup as the api layer does it (bbs.CheckExistsUser = UUserID.ToRaw + SearchUserRaw) with ids of any
+// length: the table holds ids of exactly IDLEN characters (one registered through SetupNewUser); queried: those ids with
+// 1..8 more characters, in all letter cases (ABSENT: must not resolve), the ids themselves (found), their 11-character
+// prefixes, 13-character names equal to a stored unterminated 13-byte id, names with bytes that are not alphanumeric.
+func longIdCases(p *pool) {
+	r := run.R
+	letters := "abcdefghijklmnopqrstuvwxyzABCDEFGHIJKLMNOPQRSTUVWXYZ0123456789"
+	mk12 := func() ID {
+		b := make([]byte, 12)
+		b[0] = letters[r.Intn(52)]
+		for j := 1; j < 12; j++ {
+			b[j] = letters[r.Intn(len(letters))]
+		}
+		return mkID(string(b))
+	}
+	n := 2
+	if run.Thorough() {
+		n = 12
+	}
+	for h := 0; h < n; h++ {
+		S1, S2 := mk12(), mk12()
+		table := make([]ID, MAX)
+		table[0], table[4], table[7], table[9] = p.singles[0], S1, mkID("abcdefghijklm"), p.fams[0][0]
+		if !startHistory(table) {
+			continue
+		}
+		step(fmt.Sprintf("register %s 0", idTok(S2)), "")
+		q := func(b []byte) {
+			if !over() {
+				step("exists "+hx.Hex(b), "")
+			}
+		}
+		for _, S := range []ID{S1, S2} {
+			base := cstrOf(&S)
+			for _, v := range []ID{S, flipCase(S, true), flipCase(S, false), caseVariant(S)} {
+				vb := append([]byte{}, cstrOf(&v)...)
+				q(vb)                                        // the id itself: found
+				q(append(append([]byte{}, vb...), 'x'))      // 13 characters
+				q(append(append([]byte{}, vb...), "Z9"...))  // 14
+				q(append(append([]byte{}, vb...), letters[:1+r.Intn(8)]...))
+				q(vb[:11]) // a proper prefix: absent
+			}
+			_ = base
+		}
+		q([]byte("abcdefghijklm"))
+		q([]byte("ABCDEFGHIJKLMN"))
+		short := p.fams[0][0]
+		q(append(append([]byte{}, cstrOf(&short)...), 'q'))
+		q(cstrOf(&short))
+		q([]byte("a"))
+		q([]byte("ab cd"))
+		q([]byte{})
+		q([]byte("1abcdef"))
+		if !over() {
+			step("lookupall", "")
+		}
+	}
+}
+
 func randomTable(p *pool, kind int) []ID {
 	r := run.R
 	table := make([]ID, MAX)
@@ -753,7 +813,15 @@ func history(p *pool, kind int, nOps int) {
 			default:
 				q = ID{}
 			}
-			if r.Intn(8) == 0 {
+			if r.Intn(6) == 0 {
+				name := append([]byte{}, cstrOf(&q)...)
+				if r.Bool() {
+					name = append(name, "xyzXYZ019"[:1+r.Intn(9)]...)
+				}
+				if len(name) <= 24 {
+					step("exists "+hx.Hex(name), "")
+				}
+			} else if r.Intn(8) == 0 {
 				step("dosearch "+idTok(q), "")
 			} else {
 				step("search "+idTok(q), "")
@@ -969,6 +1037,7 @@ func generate() {
 	restartCases(p)
 	registerCases(p)
 	sweepCases(p)
+	longIdCases(p)
 	nHist, nMal := 130, 25
 	if run.Thorough() {
 		nHist, nMal = 4000, 400
